@@ -28,6 +28,25 @@ First(s) == CHOOSE i \in Candidates(s) : \A j \in Candidates(s) : i <= j
 \* what the caller can read after a successful search
 Rest(s) == SubSeq(s, First(s) + 1, Len(s))
 
+(***************************************************************************)
+(* Streams with a very long gap: pre, then the byte fill (not the sync     *)
+(* byte) n >= 3 times, then suf.  No header can begin inside the gap, and  *)
+(* a header beginning in pre sees at most three gap bytes, so the search   *)
+(* on the stream is decided by the same stream with a gap of three bytes:  *)
+(* GapLemma (checked by TLC on all small instances, MC_C16gap) lets the    *)
+(* trace validation judge gaps of millions of bytes without building them. *)
+(***************************************************************************)
+Gap(fill, n) == [i \in 1..n |-> fill]
+GapStream(pre, fill, n, suf) == pre \o Gap(fill, n) \o suf
+GapShort(pre, fill, suf) == GapStream(pre, fill, 3, suf)
+GapFound(pre, fill, suf) == Found(GapShort(pre, fill, suf))
+GapFirst(pre, fill, n, suf) == LET f == First(GapShort(pre, fill, suf)) IN IF f < Len(pre) THEN f ELSE f + (n - 3)
+GapLemma(pre, fill, n, suf) ==
+  LET full == GapStream(pre, fill, n, suf) IN
+  /\ Found(full) = GapFound(pre, fill, suf)
+  /\ Found(full) => First(full) = GapFirst(pre, fill, n, suf)
+  /\ (Found(full) /\ First(full) >= Len(pre)) => Rest(full) = Rest(GapShort(pre, fill, suf))
+
 (************************* the loop as a state machine *********************)
 VARIABLES Stream,        \* the byte stream being searched (never changed by the search)
           pos,           \* reader position: number of bytes consumed
